@@ -1,5 +1,6 @@
 (* C20 — building, compiling and calling a pipeline cost time polynomial in its size. *)
-From Connectome Require Import Values VM MiscGen Cost.
+From Connectome Require Import Values VM GraphGen TravGen Cost.
+From Connectome Require EvictGen GraphGen.
 Local Open Scope list_scope.
 
 (* every graph traversal of the library remembers the nodes it has visited (regenerated shapes) ... *)
@@ -34,3 +35,11 @@ Example C20_example :
   snd (dfs_memo (diamond 10) 30 20 []) = 31 /\ Nat.ltb 3000 (dfs_paths (diamond 10) 30 20) = true /\ total_edges (diamond 10) = 30.
 Proof. exact diamond_10. Qed.
 Print Assumptions C20_example.
+
+(* The per-call tables of the machine model (Model/VM.v: evict, the counted-key assertion, two fresh tables per call over
+   counts doubled by Graph.__init__) are the ones engine/utils.py and engine/graph.py define (regenerated facts). *)
+Theorem C20_eviction_tables_are_translated :
+  EvictGen.evict_rule = "pop-at-one-else-decrement" /\ EvictGen.setitem_asserts_counted = true
+  /\ GraphGen.graph_multiplier = 2 /\ GraphGen.fresh_counts_per_call = true /\ GraphGen.count_rule = "path-count-dp".
+Proof. repeat split; reflexivity. Qed.
+Print Assumptions C20_eviction_tables_are_translated.
